@@ -48,7 +48,7 @@ fn update(shape: &str, v: &str) -> String {
         "bool" => format!("{v} := NOT {v};"),
         "real" => format!("{v} := {v} + 0.5;"),
         "lreal" => format!("{v} := {v} + 0.25;"),
-        "string" => format!("IF in_b THEN {v} := 'xyz'; ELSE {v} := 'q'; END_IF;"),
+        "string" => format!("IF in_b THEN {v} := 'J\u{fc}rgen M\u{fc}ller'; ELSE {v} := 'q'; END_IF;"),
         "time" => format!("{v} := ADD_TIME({v}, T#1ms);"),
         "enum" => format!("IF {v} = Color#Red THEN {v} := Color#Green; ELSE {v} := Color#Red; END_IF;"),
         "array" => format!("{v}[1] := {v}[1] + INT#1; {v}[2] := in_w;"),
